@@ -92,6 +92,10 @@ def _value_equality_hash(self: _SupportsValueEquality) -> int:
     return hash((self._value_equality_values_cls_(), self._value_equality_values_()))
 
 
+def _exact_values_as_approximate(self: _SupportsValueEquality) -> Any:
+    return self._value_equality_values_()
+
+
 def _value_equality_approx_eq(
     self: _SupportsValueEquality, other: _SupportsValueEquality, atol: float
 ) -> bool:
@@ -246,7 +250,9 @@ def value_equality(
 
     if approximate:
         if not hasattr(cls, '_value_equality_approximate_values_'):
-            setattr(cls, '_value_equality_approximate_values_', cached_values_getter)
+            # Dispatched through self: a subclass that overrides _value_equality_values_
+            # inherits an approximate getter that agrees with its own exact one.
+            setattr(cls, '_value_equality_approximate_values_', _exact_values_as_approximate)
         else:
             approx_values_getter = getattr(cls, '_value_equality_approximate_values_')
             cached_approx_values_getter = (
